@@ -143,7 +143,7 @@ Qed.
 
 Lemma sget_apply_op c s op : sorted s -> sget c (apply_op s op) = if writes c op then effect op else sget c s.
 Proof.
-  intros Hs. unfold writes. destruct op as [p|p|p| |]; simpl; auto.
+  intros Hs. unfold writes. destruct op as [p|p|p| | |]; simpl; auto.
   - destruct (N.eqb_spec (p_cid p) c) as [->|Hn].
     + apply sget_sput_same.
     + apply sget_sput_other. congruence.
@@ -337,7 +337,7 @@ Lemma apply_entry_clean op nd : clean_op op = true -> accepts op = true -> dirty
   pending (apply_entry op nd) = pending nd /\ snaps (apply_entry op nd) = snaps nd /\ inited (apply_entry op nd) = true.
 Proof.
   intros Hc Ha Hd Hcr. unfold apply_entry. rewrite Hcr.
-  destruct op as [p|p|p| |]; simpl in Hc, Ha; try discriminate.
+  destruct op as [p|p|p| | |]; simpl in Hc, Ha; try discriminate.
   - apply negb_true_iff in Ha. rewrite Hc, Hd, Ha. simpl. tauto.
   - rewrite Hc. simpl. tauto.
   - rewrite Hc. simpl. tauto.
@@ -348,7 +348,7 @@ Lemma apply_entry_calls op nd : clean_op op = true -> accepts op = true -> dirty
   match op with LPin p => track_of p :: calls nd | LUnpin p => untrack_of p :: calls nd | _ => calls nd end.
 Proof.
   intros Hc Ha Hd Hcr. unfold apply_entry. rewrite Hcr.
-  destruct op as [p|p|p| |]; simpl in Hc, Ha; try discriminate.
+  destruct op as [p|p|p| | |]; simpl in Hc, Ha; try discriminate.
   - apply negb_true_iff in Ha. rewrite Hc, Hd, Ha. reflexivity.
   - rewrite Hc. reflexivity.
   - rewrite Hc. reflexivity.
